@@ -356,6 +356,8 @@ struct Agg {
     distinct: BTreeSet<u64>,
     #[serde(default)]
     found: Vec<FoundJ>,
+    #[serde(default)]
+    known_hits: BTreeMap<String, u64>,
     strategies: BTreeMap<String, u64>,
     probes: BTreeMap<String, u64>,
     faults: BTreeMap<String, u64>,
@@ -434,6 +436,7 @@ fn read_stop(rundir: &std::path::Path) -> u64 {
 /// Child process: runs indices offset, offset+stride, ... sequentially, one simulation at a time.
 pub fn worker_main(scn: &'static dyn DynScenario, opts: &BatchOpts, offset: u64, stride: u64, rundir: &std::path::Path) -> i32 {
     let t0 = Instant::now();
+    let known = load_known();
     let mut a = Agg::default();
     let mut run = offset;
     let mut since_check = 0u32;
@@ -502,6 +505,19 @@ pub fn worker_main(scn: &'static dyn DynScenario, opts: &BatchOpts, offset: u64,
             }
             x => x,
         };
+        // A violation whose class and structural signature (computed by the oracle from the
+        // history, never from the seed) match a recorded known finding is counted and exploration
+        // goes on; anything else stops the batch.
+        let rep_violation = match rep_violation {
+            Some(v) => match matches_known(&known, scn.property(), scn.name(), &v) {
+                Some(k) => {
+                    *a.known_hits.entry(k.what.clone()).or_insert(0) += 1;
+                    None
+                }
+                None => Some(v),
+            },
+            None => None,
+        };
         if let Some(v) = rep_violation {
             let _ = std::fs::write(rundir.join(format!("stop.{}", offset)), format!("{}", run));
             a.found.push(FoundJ { run, plan, preemptions: to_pj(&preempts), faults: rep.faults, violation: v, strategy: sched.strategy.name(), sched_seed: sched.seed });
@@ -557,6 +573,9 @@ pub fn run_batch(scn: &'static dyn DynScenario, opts: &BatchOpts) -> i32 {
         }
         exit = 2;
     }
+    for (k, n) in &a.known_hits {
+        known_lines.insert(format!("KNOWN-FINDING: property={} {} [hit in {} runs of this batch]", scn.property(), k, n));
+    }
     if let Some(fj) = found.into_iter().next() {
         eprintln!("[{}] run {} violates: {} — {}", scn.property(), fj.run, fj.violation.class, fj.violation.detail);
         let f = FoundViolation {
@@ -600,6 +619,7 @@ fn merge_agg(a: &mut Agg, w: Agg) {
     a.preempted_runs += w.preempted_runs;
     a.distinct.extend(w.distinct);
     a.found.extend(w.found);
+    for (k, v) in w.known_hits { *a.known_hits.entry(k).or_insert(0) += v; }
     a.max_steps_seen = a.max_steps_seen.max(w.max_steps_seen);
     a.panics_seen += w.panics_seen;
     a.harness_errors.extend(w.harness_errors);
@@ -855,6 +875,7 @@ fn write_evidence(scn: &dyn DynScenario, opts: &BatchOpts, a: &Agg, explore_s: f
             "real_components": scn.real_components(),
             "stub_components": scn.stub_components(),
             "known_findings_printed": known.iter().collect::<Vec<_>>(),
+            "known_finding_hits": a.known_hits,
             "harness_errors": a.harness_errors.len(),
         },
         "assumptions": assumptions,
